@@ -93,11 +93,13 @@ class Parser(object):
         self.asttypes = asttypes
 
     def _raise_syntax_error(self, token):
+        # automatically inserted semicolons have no position in the
+        # source and are not quoted.
         tokens = [format_lex_token(t) for t in [
             self.lexer.valid_prev_token,
-            None if isinstance(token, AutoLexToken) else token,
+            token,
             self.lexer.token()
-        ] if t is not None]
+        ] if t is not None and not isinstance(t, AutoLexToken)]
         msg = (
             'Unexpected end of input',
             'Unexpected end of input after {0}',
